@@ -9,5 +9,14 @@ import framework as F
 F.setup_paths()
 ok,msg,t,stale=F.translate_constants()
 print('constants:', ('ok' if not stale else 'ok, not re-extracted: '+', '.join(stale)) if ok else msg)
+# regenerate the translated source functions (secondary tie) so that the library builds against what /repo says now
+import ties, pyfn2lean
+for pid, spec in sorted(ties.SPECS.items()):
+    try:
+        res = pyfn2lean.generate(F.SRC, spec['items'], F.LEAN / 'IblVerif' / 'Generated' / f'Src{pid}.lean', pid)
+        bad = [k for k, (ok, m, _) in res.items() if not ok]
+        print('tie source', pid, 'ok' if not bad else 'not translated: ' + ', '.join(bad))
+    except Exception as e:
+        print('tie source', pid, 'translator raised', type(e).__name__, e)
 " || exit 1
 cd lean && lake build 2>&1 | tail -5
